@@ -53,9 +53,9 @@ func generate(role string, thorough bool, only map[string]bool, emit func(job)) 
 			}
 			both := []int{0, 1}
 			cfgs := []cfg{{1, 1, both}, {2, 1, both}, {3, 1, both}, {1, 2, both}, {2, 2, both}, {3, 2, both},
-				{1, 3, both}, {2, 3, both}, {3, 3, both}, {1, 4, both}, {2, 4, both}}
+				{1, 3, both}, {2, 3, both}, {3, 3, both}, {1, 4, both}, {2, 4, []int{0}}}
 			if thorough {
-				cfgs = append(cfgs, cfg{1, 5, both}, cfg{3, 4, both}, cfg{2, 5, both})
+				cfgs = append(cfgs, cfg{2, 4, []int{1}}, cfg{1, 5, both}, cfg{3, 4, both}, cfg{2, 5, both})
 			}
 			for _, c := range cfgs {
 				for _, lead := range c.leads {
@@ -91,7 +91,7 @@ func generate(role string, thorough bool, only map[string]bool, emit func(job)) 
 						if !thorough && W == 3 && n == 2 && ci%4 != 0 {
 							continue
 						}
-						multiPair("A3", W, cb, n, 1, 0, ci%4 == 1, plain)
+						multiPair("A3", W, cb, n, 1, 0, (thorough && ci%4 == 1) || ci%7 == 1, plain)
 					}
 				}
 			}
@@ -150,21 +150,27 @@ func generate(role string, thorough bool, only map[string]bool, emit func(job)) 
 					}
 				}
 			}
+			// quick: the bases below are interrupted by retry and restart only
+			// (Wallet.Lock() during the call is exercised on the bases above)
+			faulty2 := faulty
+			if !thorough {
+				faulty2 = func(sc *Scenario) { emit(job{sc: sc, faults: true, modes: []string{"retry", "restart"}}) }
+			}
 			for W := uint32(1); W <= 2; W++ {
 				multiPair("A5", W, []Pair{p84e, p84i}, 2, 1, 0, W == 1, func(sc *Scenario) {
-					faulty(sc)
+					faulty2(sc)
 					if thorough || W == 1 {
-						withSpends(sc, false, faulty)
+						withSpends(sc, false, faulty2)
 					}
 				})
 			}
-			singlePair("A5", 1, p84e, 3, 2, 0, false, faulty)
+			singlePair("A5", 1, p84e, 3, 2, 0, false, faulty2)
 			// spends whose funding output was committed by an earlier batch
 			for lead := 0; lead <= 1; lead++ {
-				singlePair("A5", 1, p84e, 2, 1, lead, false, spends(false, faulty))
-				singlePair("A5", 2, p84e, 2, 1, lead, lead == 1, spends(false, faulty))
+				singlePair("A5", 1, p84e, 2, 1, lead, false, spends(false, faulty2))
+				singlePair("A5", 2, p84e, 2, 1, lead, lead == 1, spends(false, faulty2))
 			}
-			singlePair("A5", 1, p84e, 3, 1, 0, false, spends(false, faulty))
+			singlePair("A5", 1, p84e, 3, 1, 0, false, spends(false, faulty2))
 			if thorough {
 				singlePair("A5", 1, p84e, 3, 2, 1, false, faulty)
 				singlePair("A5", 2, p84e, 3, 1, 0, false, faulty)
